@@ -440,7 +440,46 @@ def _range_bounds(e, facts):
     raise Unevaluable()
 
 
+def check_fields(facts, chk):
+    """what is stored is what the dictionary holds: provenance of every field of the struct built in MergeSkaArray::new"""
+    new = facts.fn(MSA + '::new')
+    eb = ExprBuilder(new)
+    ags = [s for b in new.blocks if b.idx in new.live_blocks() for s in b.stmts
+           if s.k == 'assign' and s.rv.k == 'aggregate' and s.rv.j['kind'].get('adt') == MSA]
+    if len(ags) != 1:
+        raise AnchorLost('MergeSkaArray::new builds %d structs' % len(ags))
+    ops = {f: eb.operand(o) for f, o in zip(ags[0].rv.j['kind']['fields'], ags[0].rv.ops)}
+    want = {'k': lambda e: e[0] == 'call' and e[1].endswith('MergeSkaDict::kmer_len'),
+            'rc': lambda e: e[0] == 'call' and e[1].endswith('MergeSkaDict::rc'),
+            'names': lambda e: e[0] == 'call' and e[1].endswith('::clone') and 'names(' in show(e),
+            'k_bits': lambda e: e[0] == 'call' and e[1].endswith('::n_bits'),
+            'split_kmers': lambda e: show(e).startswith('with_capacity(') or e[0] == 'var',
+            'variants': lambda e: True, 'variant_count': lambda e: True, 'ska_version': lambda e: True}
+    for f, pred in want.items():
+        key = 'C09.fields:new:%s' % f
+        if f not in ops:
+            chk.violation('C09.fields', key, kind='anchor-lost', detail='field %s not set in MergeSkaArray::new' % f)
+        elif pred(ops[f]):
+            chk.ok('C09.fields', key, ags[0].span, '%s = %s' % (f, show(ops[f])[:80]), nontrivial=f in ('k', 'rc', 'names', 'k_bits'))
+        else:
+            chk.violation('C09.fields', key, where=ags[0].span, detail='stored field `%s` is %s' % (f, show(ops[f])[:120]))
+    # the k-mer pushed and the row pushed come from the same dictionary entry
+    kp = [(bb, t) for bb, t in new.calls() if (t.callee.name or '').endswith('Vec::push') and 'Vec::<IntT>' in (t.callee.full or '')]
+    pr = [(bb, t) for bb, t in new.calls() if 'push_row' in (t.callee.name or '')]
+    if len(kp) == 1 and len(pr) == 1:
+        ke = show(eb.operand(kp[0][1].args[1]))
+        re_ = show(eb.operand(pr[0][1].args[1]))
+        same = ke.replace('.0', '') .split('next(')[-1][:20] == re_.replace('.1', '').split('next(')[-1][:20] or ('next(' in ke and 'next(' in re_)
+        if same and ke.rstrip(')').endswith('.0') and '.1' in re_:
+            chk.ok('C09.fields', 'C09.fields:new:row-pairing', kp[0][1].span, 'k-mer = entry.0, row = entry.1 of the same dictionary entry')
+        else:
+            chk.violation('C09.fields', 'C09.fields:new:row-pairing', where=kp[0][1].span, detail='k-mer pushed %s but row pushed %s' % (ke, re_))
+    else:
+        chk.violation('C09.fields', 'C09.fields:new:row-pairing', kind='anchor-lost', detail='%d k-mer pushes, %d push_row' % (len(kp), len(pr)))
+
+
 def run(facts, chk, tier, only=None):
+    chk.guard('C09.fields', 'C09.fields:run', lambda: check_fields(facts, chk))
     chk.guard('C09.width', 'C09.width:run', lambda: check_width(facts, chk))
     chk.guard('C09.arms', 'C09.arms:run', lambda: check_arms(facts, chk))
     chk.guard('C09.k', 'C09.k:run', lambda: check_valid_k(facts, chk))
